@@ -313,7 +313,7 @@ def run_grouping(chosen, refs, perm, bs, nj, res, repeat=1):
 
 def conclude_args(res, tier, seed):
     return {"need": {"rows_compared": 600, "history_rows_compared": 100, "groupings_run": 60, "stats_additivity_evaluated": 30,
-                     "set_members:mcs-based": 4, "set_members:rule-based": 5, "set_members:declined": 2},
+                     "set_members:mcs-based": 8, "set_members:rule-based": 8, "set_members:declined": 4},
             "min_cases": 500}
 
 
